@@ -249,6 +249,10 @@ def run(ctx):
         # commands several package levels below the requested library
         [["d", "ulib.sub.deep", "Alpha", 1], ["d", "vlib.a.x.y", "Beta", 2], ["c", ["ulib"]], ["c", ["ulib.sub"]], ["c", ["vlib"]], ["c", ["vlib.a"]], ["c", ["ulib.sub.deep", "vlib.b"]]],
         [["d", "ulib.sub.deep", "Alpha", 1], ["d", "ulib", "Alpha", 2], ["c", ["ulib"]], ["c", ["ulib.sub"]]],
+        # several commands of ONE module whose classes share a Python class name and differ only in their explicit command name (a class factory): all are offered
+        [["d", "ulib", "Alpha", 1], ["d", "ulib", "Beta", 2], ["d", "ulib", "Gamma", 3], ["c", ["ulib"]], ["c", ["ulib"]]],
+        [["d", "vlib.a", "Beta", 1], ["c", ["vlib"]], ["d", "vlib.a", "Alpha", 2], ["c", ["vlib"]], ["d", "vlib", "Gamma", 3], ["d", "vlib", "Sum", 4], ["c", ["vlib"]], ["c", ["vlib.a"]]],
+        [["d", "ulibx", "Beta", 1], ["d", "ulib_extra", "Alpha", 2], ["d", "ulibx", "Alpha", 3], ["d", "ulib_extra", "Beta", 4], ["c", ["ulibx"]], ["c", ["ulib_extra"]], ["c", ["ulib_extra", "vlib"]]],
     ]
     answers = model.ask([model_line(h, builtin) for h in hists])
     for hist, ans in zip(hists, answers):
